@@ -68,6 +68,8 @@ type GenOpts struct {
 	// Big: 1 = structs of 16-21 fields; 2 = in addition 130-160 methods in the
 	// first interface (thresholds, buffers and chunk sizes have two sides)
 	Big int
+	// Collide: the first methods of the first two interfaces have the same name
+	Collide bool
 }
 
 var RejectFamilies = []string{
@@ -313,6 +315,10 @@ func GenWorld(r *Rng, opts GenOpts, variantCount int) *WorldSpec {
 			nIntf = vr.Range(2, 3)
 			feat["multi-interface"] = true
 		}
+		if opts.Collide && nIntf < 2 {
+			nIntf = 2
+			feat["multi-interface"] = true
+		}
 		mcount := 0
 		for ii := 0; ii < nIntf; ii++ {
 			gi := genIntf{}
@@ -517,6 +523,21 @@ func GenWorld(r *Rng, opts GenOpts, variantCount int) *WorldSpec {
 				gi.methods = append(gi.methods, m)
 			}
 			intfs = append(intfs, gi)
+		}
+		if opts.Collide && len(intfs) >= 2 && len(intfs[0].methods) > 0 && len(intfs[1].methods) > 0 {
+			// two interfaces declare a method of the same name (no receivers to tell them
+			// apart): two functions of that name are emitted - accepted today, the
+			// result does not compile, which is not this technique's business
+			a, b := intfs[0].methods[0], &intfs[1].methods[0]
+			recv := false
+			for _, n := range append(append([]string(nil), a.notations...), b.notations...) {
+				recv = recv || strings.HasPrefix(n, ":recv")
+			}
+			if !recv {
+				b.sig = a.name + strings.TrimPrefix(b.sig, b.name)
+				b.name = a.name
+				feat["colliding-method-names"] = true
+			}
 		}
 		// a converter that is itself generated in this run
 		if (opts.Rich && vr.Chance(1, 3) || vr.Chance(1, 8)) && opts.Reject == "" {
